@@ -120,6 +120,23 @@ def extract():
                 d["post_kernel"].append(" ".join(ast.unparse(st).split()))
         d["mvms"] = next((" ".join(ast.unparse(st).split()) for st in loop.body
                           if isinstance(st, ast.Assign) and ast.unparse(st.targets[0]) == "mvms"), "?")
+    # order of the top-level statements of the loop body (which block precedes which)
+    d["loop_order"] = []
+    if loop:
+        for st in loop.body:
+            if isinstance(st, ast.If):
+                txt = " ".join(ast.unparse(st.test).split())
+                d["loop_order"].append("stop-rule" if "tolerance" in txt else "tridiag-block" if "update_tridiag" in txt
+                                       else "kernel" if txt == "precond" else "if:" + txt)
+            elif isinstance(st, ast.Assign):
+                d["loop_order"].append("assign:" + ast.unparse(st.targets[0]))
+            else:
+                d["loop_order"].append(" ".join(ast.unparse(st).split())[:60])
+    # the warning guard after the loop
+    d["warn_guard"] = "?"
+    for st in f.body:
+        if isinstance(st, ast.If) and "warnings.warn" in ast.unparse(st):
+            d["warn_guard"] = " ".join(ast.unparse(st.test).split())
     d.setdefault("tri_body", [])
     d.setdefault("mvms", "?")
     # ---- straight-line part: every top-level statement of linear_cg before/after the loop, as text
@@ -186,6 +203,8 @@ def render(d):
     L.append(f"def params : List (String × String) := [" + ", ".join(f"({lean_str(a)}, {lean_str(b)})" for a, b in d["params"]) + "]")
     L.append(f"def loopIter : String := {lean_str(d['loop_iter'])}")
     L.append(f"def mvms : String := {lean_str(d['mvms'])}")
+    L.append(f"def loopOrder : List String := {sl(d['loop_order'])}")
+    L.append(f"def warnGuard : String := {lean_str(d['warn_guard'])}")
     L.append(f"def stopRule : String := {lean_str(d['stop_rule'])}")
     L.append(f"def stopBody : List String := {sl(d['stop_body'])}")
     L.append(f"def triGuard : String := {lean_str(d['tri_guard'])}")
